@@ -354,14 +354,20 @@ fn draw_shape(r: &mut Rng, p: Profile) -> Shape {
     let mut learners_next = Vec::new();
     let mut auto_leave = false;
     let mut voters2 = voters.clone();
-    if nv >= 2 && p != Profile::Lockstep && p != Profile::Singleton && r.chance(1, 12) {
+    let joint_start = if p == Profile::Lockstep { nv >= 3 && r.chance(1, 4) } else { nv >= 2 && p != Profile::Singleton && r.chance(1, 12) };
+    if joint_start {
         // outgoing = the original voters; incoming drops the last one (maybe demoting it)
         outgoing = voters.clone();
-        let dropped = voters2.pop().unwrap();
-        if r.chance(1, 2) {
-            learners_next.push(dropped);
+        // one voter leaves the incoming half, two when there is room (each maybe demoted)
+        let ndrop = if nv >= 4 && r.chance(1, 2) { 2 } else { 1 };
+        for _ in 0..ndrop {
+            let dropped = voters2.pop().unwrap();
+            if r.chance(1, 2) {
+                learners_next.push(dropped);
+            }
         }
-        auto_leave = r.chance(1, 2);
+        // the lock-step windows need a fixed configuration: no automatic leave there
+        auto_leave = p != Profile::Lockstep && r.chance(1, 2);
     }
     let desc = format!(
         "voters {:?} outgoing {:?} learners {:?} learners_next {:?} blanks {:?} boot {}",
